@@ -169,6 +169,14 @@ for _tr, _l, _r in CMP_IMPLS:
                       impl=r"impl " + _tr + "<" + re.escape(_r) + r"> for " + re.escape(_l) + r" \{",
                       lean=('cmp.eq_' if _tr == 'PartialEq' else 'cmp.partial_cmp_') + _cmp_name(_l) + '_' + _cmp_name(_r),
                       params=[('self', 'ptrself'), ('other', 'ptrself')], ret='pure', rtype='Bool' if _tr == 'PartialEq' else 'Option Ordering', cmpimpl=True))
+FUNCS += [
+    dict(id='Validate', file='src/pointer.rs', fn='validate', impl=None, lean='validate', params=[('value', 'bytes')], ret='res', rtype='Res ParseError Bytes', imports=['ValidateBytes'], door=True),
+    dict(id='PointerParse', file='src/pointer.rs', fn='parse', impl=PTR_IMPL, lean='Pointer.parse', params=[('s', 'bytes')], ret='res', rtype='Res ParseError Bytes', imports=['Validate'], door=True),
+    dict(id='PointerBufParse', file='src/pointer.rs', fn='parse', impl=BUF_IMPL, lean='PointerBuf.parse', params=[('s', 'bytes')], ret='res', rtype='Res (ParseError × Bytes) Bytes', imports=['Validate'], door=True),
+    dict(id='BufTryFromString', file='src/pointer.rs', fn='try_from', impl=r"impl TryFrom<String> for PointerBuf", lean='PointerBuf.try_from_string', params=[('value', 'bytes')], ret='res', rtype='Res ParseError Bytes', imports=['Validate'], door=True),
+    dict(id='BufTryFromStr', file='src/pointer.rs', fn='try_from', impl=r"impl TryFrom<&str> for PointerBuf", lean='PointerBuf.try_from_str', params=[('value', 'bytes')], ret='res', rtype='Res ParseError Bytes', imports=['PointerParse'], door=True),
+    dict(id='BufFromStr', file='src/pointer.rs', fn='from_str', impl=r"impl FromStr for PointerBuf", lean='PointerBuf.from_str', params=[('s', 'bytes')], ret='res', rtype='Res ParseError Bytes', imports=['BufTryFromStr'], door=True),
+]
 PE_IMPL = r"impl ParseError \{"
 FUNCS += [
     dict(id='ParseErrOffset', file='src/pointer.rs', fn='offset', impl=PE_IMPL, lean='ParseError.offset', params=[('self', 'errself:parseerror')], ret='pure', rtype='Nat'),
@@ -571,6 +579,14 @@ class Fn:
                     return a
                 return self.E(whole(args[0]), env, ctx, lambda a, ta: self.E(whole(args[1]), env, ctx,
                               lambda b, tb: k(f"(some (lexCmp {a} {b}))", 'optord') if (ta in BYTESLIKE and tb in BYTESLIKE) else self.bad("partial_cmp(" + ta + ", " + tb + ")")))
+            if self.spec.get('door') and len(args) in (1, 2):
+                tgt = {('validate_bytes', 2): ('validate_bytes', 'res(unit;parseerror)'), ('validate', 1): ('validate', 'res(bytes;parseerror)'),
+                       ('Pointer::parse', 1): ('Pointer.parse', 'res(bytes;parseerror)'), ('Self::try_from', 1): ('PointerBuf.try_from_str', 'res(bytes;parseerror)')}.get((ps, len(args)))
+                if tgt and not (ps == 'Self::try_from' and self.spec['id'] != 'BufFromStr'):
+                    def god2(i, acc):
+                        if i == len(args): return k(f"({tgt[0]} {' '.join(acc)})", tgt[1])
+                        return self.E(args[i], env, ctx, lambda a, ta: god2(i + 1, acc + [a]))
+                    return god2(0, [])
             if ps == 'Label::new' and len(args) == 3:
                 return self.E(args[1], env, ctx, lambda o, to: self.E(args[2], env, ctx,
                               lambda l, tl: k(f"({o}, {l})", 'label') if (to == 'nat' and tl == 'nat') else self.bad("Label::new(_, " + to + ", " + tl + ")")))
@@ -841,6 +857,17 @@ class Fn:
             if tr == 'intoval' and name == 'into' and not args: return k(r, 'val')
             if tr == 'index' and name == 'for_len' and len(args) == 1:
                 return self.E(args[0], env, ctx, lambda a, ta: k(f"(Index.for_len {r} {a})", mk_res('nat', 'ooberr')))
+            if is_res(tr) and name == 'map' and len(args) == 1 and self.spec.get('door'):
+                tt, te = res_parts(tr); a = self.fresh('a'); ev = self.fresh('e'); m = self.fresh('m')
+                if args[0][0] == 'closure':
+                    pat, env2 = self.closure_head(args[0], tt, env)
+                    body, tb = self.term(args[0][2], env2)
+                elif args[0] == ('path', ['Pointer', 'to_buf']) and tt in BYTESLIKE: pat, body, tb = a, a, 'bytes'
+                else: raise Unsupported("map with " + str(args[0][0]))
+                return k(paren(f"match {r} with\n| .ok {pat} => Res.ok {body}\n| .err {ev} => Res.err {ev}\n| .panic {m} => Res.panic {m}"), mk_res('bytes' if tb in BYTESLIKE else tb, te))
+            if tr == 'parseerror' and name == 'into_report' and len(args) == 1 and self.spec.get('door'):
+                return self.E(args[0], env, ctx, lambda a, ta: k(f"({r}, {a})", 'report') if ta in BYTESLIKE else self.bad("into_report(" + ta + ")"))
+            if tr in BYTESLIKE and name == 'into' and not args and self.spec.get('door'): return k(r, 'bytes')
             if is_res(tr) and name == 'ok' and not args:
                 tt, te = res_parts(tr)
                 if self.retkind not in ('mutdoc', 'res', 'optres'): raise Unsupported(".ok() where a panic cannot be propagated")
@@ -1093,6 +1120,24 @@ class Fn:
             sc2 = scruts[:col] + list(zip(parts, tys)) + scruts[col + 1:]
             inner = self.compile_match(rows2, sc2, env, body_k)
             return paren(pre + ind(inner)) if pre else inner
+        if is_res(ty):
+            if any(not self.irrefutable(q) for i, q in enumerate(pats) if i != col): raise Unsupported("two refutable columns")
+            tt, te = res_parts(ty); arms = {}
+            for (ps_, g, pl) in rows:
+                q = self.strip_ref(ps_[col])
+                if g is not None or q[0] != 'pctor' or self.pathstr(q[1]) not in ('Ok', 'Err') or len(q[2]) != 1: raise Unsupported("pattern on a Result")
+                sub = self.strip_ref(q[2][0])
+                if sub[0] not in ('pbind', 'pwild'): raise Unsupported("nested pattern on a Result")
+                arms.setdefault(self.pathstr(q[1]), (sub, pl))
+            if set(arms) != {'Ok', 'Err'}: raise Unsupported("non-exhaustive match on a Result")
+            m = self.fresh('m'); outp = []
+            for which, lc, tyv in (('Ok', '.ok', tt), ('Err', '.err', te)):
+                sub, pl = arms[which]; env2 = dict(env); v = '_'
+                if sub[0] == 'pbind': v = sub[1]; env2[v] = tyv
+                outp.append(f"| {lc} {v} =>\n{ind(body_k(pl, env2))}")
+            # a panic inside the scrutinee leaves the function (only meaningful where the function can report one)
+            raise_p = "Res.panic " + m
+            return paren(f"match {s} with\n" + "\n".join(outp) + f"\n| .panic {m} => {raise_p}")
         if ty == 'parseerror':
             if any(not self.irrefutable(q) for i, q in enumerate(pats) if i != col): raise Unsupported("two refutable columns")
             arms = {}
@@ -1222,6 +1267,8 @@ class Fn:
                 if init[0] in ('if', 'iflet', 'block') and (self.effectful(init) or self.has_stmts(init) or init[0] == 'if'):
                     return self.V(init, env, ctx, lambda a, ta, e3: after(a, ta, e3))
                 return self.E(init, env, ctx, after)
+            if pat[0] == 'pwild':
+                return self.E(init, env, ctx, lambda a, ta: rest(env))
             if pat[0] == 'ptuple' and all(q[0] == 'pbind' for q in pat[1]):
                 def after(a, ta):
                     if not ta.startswith('tuple:'): raise Unsupported("tuple pattern on " + ta)
@@ -1353,6 +1400,19 @@ class Fn:
             pat, ex = e[1], e[2]
             thn = self.norm_stmt_block(e[3]); els = self.norm_stmt_block(e[4]) if e[4] is not None else []
             pat = self.strip_ref(pat)
+            if pat[0] == 'pctor' and self.pathstr(pat[1]) in ('Err', 'Ok') and len(pat[2]) == 1 and self.strip_ref(pat[2][0])[0] in ('pbind', 'pwild'):
+                which = self.pathstr(pat[1]); sub = self.strip_ref(pat[2][0])
+                def after_r(a, ta):
+                    if not is_res(ta): raise Unsupported("if let " + which + " on " + ta)
+                    tt, te = res_parts(ta); v = sub[1] if sub[0] == 'pbind' else '_'; o = self.fresh('o'); m = self.fresh('m')
+                    env2 = dict(env)
+                    if sub[0] == 'pbind': env2[v] = te if which == 'Err' else tt
+                    pan = ctx.ret(f"(Res.panic {m})") if self.retkind == 'mutdoc' else ctx.ret(f".panic {m}")
+                    hit, miss = (".err", ".ok") if which == 'Err' else (".ok", ".err")
+                    return self.branch(env, ctx, rest,
+                                       lambda kt, kf: paren(f"match {a} with\n| {hit} {v} =>\n{ind(kt)}\n| {miss} {o} =>\n{ind(kf)}\n| .panic {m} => {pan}"),
+                                       [(thn, env2), (els, env)], True)
+                return self.E(ex, env, ctx, after_r)
             if not (pat[0] == 'pctor' and self.pathstr(pat[1]) == 'Some' and len(pat[2]) == 1 and pat[2][0][0] == 'pbind'):
                 raise Unsupported("if let pattern")
             v = pat[2][0][1]
